@@ -211,6 +211,12 @@ def rule_table(cols):
         ("window aggregate of a method result", f".extend({{'n1': '{c1}.abs().mean()'}}, partition_by=['{c0}'])", False),
         ("ordered window function of a calculation", f".extend({{'n1': '({c1} + 1).shift()'}}, partition_by=['{c0}'], order_by=['{c1}'])", False),
         ("window aggregate of a constant", f".extend({{'n1': '(1).sum()'}}, partition_by=['{c0}'])", True),
+        # a whole-partition aggregate in an ORDERED window would be a running value in SQL and the group value in Pandas: rejected when built
+        ("group sum in an ordered window", f".extend({{'n1': '{c1}.sum()'}}, partition_by=['{c0}'], order_by=['{c1}'])", False),
+        ("group mean in an ordered window", f".extend({{'n1': '{c1}.mean()'}}, partition_by=['{c0}'], order_by=['{c1}'])", False),
+        ("group size in an ordered window", f".extend({{'n1': '_size()'}}, partition_by=['{c0}'], order_by=['{c1}'])", False),
+        ("group nunique in an ordered window", f".extend({{'n1': '{c1}.nunique()'}}, partition_by=['{c0}'], order_by=['{c1}'])", False),
+        ("ordered function in an ordered window", f".extend({{'n1': '{c1}.cumsum()'}}, partition_by=['{c0}'], order_by=['{c1}'])", True),
         ("ordered window function in project", f".project({{'n1': '{c1}.cumsum()'}}, group_by=['{c0}'])", False),
         ("unknown group column", f".project({{'n1': '{c1}.sum()'}}, group_by=['nosuch'])", False),
         ("select unknown column", ".select_columns(['nosuch'])", False),
